@@ -121,6 +121,15 @@ impl SpawnSpec {
             _ => Mailbox::Unbounded,
         }
     }
+    /// the explicit builder mailbox, if any
+    pub fn mailbox_opt(&self) -> Option<Mailbox> {
+        match self {
+            SpawnSpec::Build { mailbox, .. } => Some(*mailbox),
+            SpawnSpec::Stream { builder, .. } => *builder,
+            SpawnSpec::Register { builder } => *builder,
+            _ => None,
+        }
+    }
     pub fn strategy(&self) -> RStrat {
         match self {
             SpawnSpec::Build { strategy, .. } => *strategy,
@@ -331,6 +340,8 @@ pub enum Fault {
     StartFail { actor: Slot, inc: u32, how: FailHow },
     /// `stopped` panics
     StopPanic { actor: Slot },
+    /// `finished` (stream-attached actors) panics after its steps
+    FinishPanic { actor: Slot },
 }
 
 #[derive(Clone, Debug, PartialEq, Eq, Hash, Serialize, Deserialize)]
